@@ -53,11 +53,13 @@ def plan(tier):
         "min_nontrivial": 40 if q else 800,
         "required_counters": ["reads_judged", "cached_reads_served_from_cache", "reads_after_update",
                               "reads_after_caller_mutation", "concurrent_phases", "reads_overlapping_update",
-                              "stdlib_crosschecks"],
+                              "stdlib_crosschecks", "listing_reads_judged", "listing_rows_mutated_top",
+                              "listing_rows_mutated_nested", "single_reads_after_listing_mutation"],
         "rule": "a case is one history (mode, seed): 25-60 operations over 10 tables in sequential mode, or a "
                 "sequential prefix followed by 2-6 concurrent phases (gather of 1-4 reads and 1-3 updates of one id, "
-                "jittered) in concurrent mode; plus three dedicated classes (nested aliasing, one read overlapping "
-                "one update, keyword-form reads). Non-trivial = at least one judged read was served from a cache "
+                "jittered) in concurrent mode; listing reads (14 kinds) are operations too and in half of them the caller "
+                "edits the returned rows and re-reads the ids singly and through the listing; plus four dedicated classes "
+                "(nested aliasing, one read overlapping one update, keyword-form reads, listing-row mutation). Non-trivial = at least one judged read was served from a cache "
                 "after an update or a caller mutation of that id; distinct = distinct (mode, seed).",
         "exhaustive": False,
         "assumptions": ["sqlite3/aiosqlite execute statements in submission order on one connection",
@@ -420,83 +422,180 @@ class History:
         self.mutated_since_read[(t, id_)] = True
         self.op("caller_mutates_" + how, t, id_)
 
-    async def do_list_read(self):
-        """uncached list/join getters, compared as multisets unless the query orders them"""
-        rng, db, unc = self.rng, self.db, self.unc
+    LIST_CHOICES = ["workflow_ports", "workflow_steps", "port_tokens", "executions_by_step", "input_ports",
+                    "output_ports", "input_steps", "output_steps", "port_from_token", "workflows_by_name",
+                    "workflows_list", "dependees", "dependers", "reports"]
+
+    def pick_list_plan(self, choice=None):
+        """a listing / multi-row read and its arguments (fixed so that the same read can be issued again)"""
+        rng = self.rng
+        choice = choice or rng.choice(self.LIST_CHOICES)
+        plan = {"choice": choice}
+        if choice in ("workflow_ports", "workflow_steps"):
+            plan["arg"] = self.pick("workflow")
+        elif choice in ("port_tokens", "input_steps", "output_steps"):
+            plan["arg"] = self.pick("port")
+        elif choice in ("executions_by_step", "input_ports", "output_ports"):
+            plan["arg"] = self.pick("step")
+        elif choice in ("port_from_token", "dependees", "dependers"):
+            plan["arg"] = self.pick("token")
+        elif choice in ("workflows_by_name", "reports"):
+            plan["arg"] = rng.choice(WFNAMES)
+            plan["last"] = rng.random() < 0.5
+        elif choice == "workflows_list":
+            plan["arg"] = None if rng.random() < 0.5 else rng.choice(WFNAMES)
+        if choice not in ("workflows_list",) and plan.get("arg") is None:
+            return None
+        return plan
+
+    async def list_read(self, plan):
+        """One listing / join read judged against the uncached answer (multisets unless the query orders them).
+        Returns (rows handed to the caller, table of those rows or None)."""
+        db, unc = self.db, self.unc
         from streamflow.core.persistence import DependencyType
 
         IN, OUT = DependencyType.INPUT.value, DependencyType.OUTPUT.value
-        choice = rng.choice(["workflow_ports", "workflow_steps", "port_tokens", "executions_by_step", "input_ports",
-                             "output_ports", "input_steps", "output_steps", "port_from_token", "workflows_by_name",
-                             "workflows_list", "dependees", "dependers", "reports"])
-        self.op("get_" + choice)
+        choice, x = plan["choice"], plan.get("arg")
+        self.op("get_" + choice, x if isinstance(x, (int, str)) else None)
+        self.sh.count("listing_reads_judged")
         if choice == "workflow_ports":
-            w = self.pick("workflow")
-            self._cmp(f"get_workflow_ports({w})", await db.get_workflow_ports(w), await unc.rows_where("port", "workflow = ?", (w,)), False)
-        elif choice == "workflow_steps":
-            w = self.pick("workflow")
-            self._cmp(f"get_workflow_steps({w})", await db.get_workflow_steps(w), await unc.rows_where("step", "workflow = ?", (w,)), False)
-        elif choice == "port_tokens" and self.ids["port"]:
-            p = self.pick("port")
-            self._cmp(f"get_port_tokens({p})", await db.get_port_tokens(p), await unc.scalar_list("SELECT id FROM token WHERE port = ?", (p,)), False)
-        elif choice == "executions_by_step" and self.ids["step"]:
-            s = self.pick("step")
-            self._cmp(f"get_executions_by_step({s})", await db.get_executions_by_step(s), await unc.rows_where("execution", "step = ?", (s,)), False)
-        elif choice in ("input_ports", "output_ports") and self.ids["step"]:
-            s = self.pick("step")
+            got = await db.get_workflow_ports(x)
+            self._cmp(f"get_workflow_ports({x})", got, await unc.rows_where("port", "workflow = ?", (x,)), False)
+            return got, "port"
+        if choice == "workflow_steps":
+            got = await db.get_workflow_steps(x)
+            self._cmp(f"get_workflow_steps({x})", got, await unc.rows_where("step", "workflow = ?", (x,)), False)
+            return got, "step"
+        if choice == "port_tokens":
+            got = await db.get_port_tokens(x)
+            self._cmp(f"get_port_tokens({x})", got, await unc.scalar_list("SELECT id FROM token WHERE port = ?", (x,)), False)
+            return got, None
+        if choice == "executions_by_step":
+            got = await db.get_executions_by_step(x)
+            self._cmp(f"get_executions_by_step({x})", got, await unc.rows_where("execution", "step = ?", (x,)), False)
+            return got, "execution"
+        if choice in ("input_ports", "output_ports"):
             ty = IN if choice == "input_ports" else OUT
-            self._cmp(f"get_{choice}({s})", await getattr(db, "get_" + choice)(s), await unc.rows_where("dependency", "step = ? AND type = ?", (s, ty)), False)
-        elif choice in ("input_steps", "output_steps") and self.ids["port"]:
-            p = self.pick("port")
+            got = await getattr(db, "get_" + choice)(x)
+            self._cmp(f"get_{choice}({x})", got, await unc.rows_where("dependency", "step = ? AND type = ?", (x, ty)), False)
+            return got, None
+        if choice in ("input_steps", "output_steps"):
             ty = OUT if choice == "input_steps" else IN
-            self._cmp(f"get_{choice}({p})", await getattr(db, "get_" + choice)(p), await unc.rows_where("dependency", "port = ? AND type = ?", (p, ty)), False)
-        elif choice == "port_from_token" and self.ids["token"]:
-            t = self.pick("token")
-            exp = await unc.port_from_token(t)
+            got = await getattr(db, "get_" + choice)(x)
+            self._cmp(f"get_{choice}({x})", got, await unc.rows_where("dependency", "port = ? AND type = ?", (x, ty)), False)
+            return got, None
+        if choice == "port_from_token":
+            exp = await unc.port_from_token(x)
             if exp is None:
                 self.sh.count("out_of_domain_token_without_port")
-                return
-            self._cmp(f"get_port_from_token({t})", await db.get_port_from_token(t), exp)
-        elif choice == "workflows_by_name":
-            n = rng.choice(WFNAMES)
-            exp = await unc.rows_where("workflow", "name = ?", (n,), order="id DESC")
+                return None, None
+            got = await db.get_port_from_token(x)
+            self._cmp(f"get_port_from_token({x})", got, exp)
+            return [got], "port"
+        if choice == "workflows_by_name":
+            exp = await unc.rows_where("workflow", "name = ?", (x,), order="id DESC")
             if not exp:
                 self.sh.count("out_of_domain_unknown_name")
-                return
-            last = rng.random() < 0.5
-            self._cmp(f"get_workflows_by_name({n!r},{last})", await db.get_workflows_by_name(n, last_only=last), exp[:1] if last else exp)
-        elif choice == "workflows_list":
-            if rng.random() < 0.5:
+                return None, None
+            got = await db.get_workflows_by_name(x, last_only=plan["last"])
+            self._cmp(f"get_workflows_by_name({x!r},{plan['last']})", got, exp[:1] if plan["last"] else exp)
+            return got, "workflow"
+        if choice == "workflows_list":
+            if x is None:
                 got = await db.get_workflows_list(None)
                 rows = await unc._all("SELECT name, type, COUNT(*) FROM workflow GROUP BY name, type ORDER BY name DESC")
                 self._cmp("get_workflows_list(None)", got, [dict(zip(["name", "type", "num"], r)) for r in rows], False)
-            else:
-                n = rng.choice(WFNAMES)
-                rows = await unc.rows_where("workflow", "name = ?", (n,), order="id DESC")
-                if not rows or any(r["start_time"] is None or r["end_time"] is None for r in rows):
-                    self.sh.count("out_of_domain_null_times")
-                    return
-                from streamflow.core.workflow import Status
-                import datetime
+                return got, None
+            rows = await unc.rows_where("workflow", "name = ?", (x,), order="id DESC")
+            if not rows or any(r["start_time"] is None or r["end_time"] is None for r in rows):
+                self.sh.count("out_of_domain_null_times")
+                return None, None
+            import datetime
 
-                def iso(ns):
-                    return (datetime.datetime(1970, 1, 1, tzinfo=datetime.timezone.utc) + datetime.timedelta(microseconds=round(ns / 1000))).isoformat()
+            from streamflow.core.workflow import Status
 
-                exp = [{"end_time": iso(r["end_time"]), "start_time": iso(r["start_time"]), "status": Status(r["status"]).name, "type": r["type"]} for r in rows]
-                self._cmp(f"get_workflows_list({n!r})", await db.get_workflows_list(n), exp)
-        elif choice in ("dependees", "dependers") and self.ids["token"]:
-            t = self.pick("token")
+            def iso(ns):
+                return (datetime.datetime(1970, 1, 1, tzinfo=datetime.timezone.utc) + datetime.timedelta(microseconds=round(ns / 1000))).isoformat()
+
+            exp = [{"end_time": iso(r["end_time"]), "start_time": iso(r["start_time"]), "status": Status(r["status"]).name, "type": r["type"]} for r in rows]
+            got = await db.get_workflows_list(x)
+            self._cmp(f"get_workflows_list({x!r})", got, exp)
+            return got, None
+        if choice in ("dependees", "dependers"):
             col = "depender" if choice == "dependees" else "dependee"
-            self._cmp(f"get_{choice}({t})", await getattr(db, "get_" + choice)(t), await unc.rows_where("provenance", f"{col} = ?", (t,)), False)
-        elif choice == "reports":
-            n = rng.choice(WFNAMES)
-            last = rng.random() < 0.5
-            got = self.O.plain(await db.get_reports(n, last_only=last))
-            exp = await unc.reports(n, last)
+            got = await getattr(db, "get_" + choice)(x)
+            self._cmp(f"get_{choice}({x})", got, await unc.rows_where("provenance", f"{col} = ?", (x,)), False)
+            return got, None
+        if choice == "reports":
+            raw = await db.get_reports(x, last_only=plan["last"])
+            got = self.O.plain(raw)
+            exp = await unc.reports(x, plan["last"])
             self.sh.count("reads_judged")
             norm = lambda groups: [sorted(g, key=self.O.canon) for g in groups]
             if self.O.canon(norm(got)) != self.O.canon(norm(exp)):
-                self.report(None, f"get_reports({n!r},{last}) = {self.O.canon(got)[:300]} expected {self.O.canon(exp)[:300]}", {})
+                self.report(None, f"get_reports({x!r},{plan['last']}) = {self.O.canon(got)[:300]} expected {self.O.canon(exp)[:300]}", {})
+            return [r for g in raw for r in g], None
+        raise AssertionError(choice)
+
+    def mutate_listing_rows(self, rows):
+        """the caller edits the rows a listing read returned: top-level overwrite / insert / delete and nested edits.
+        Nothing is recorded in `handed`: rows of a listing read never come from a cache, so a later wrong read
+        cannot be attributed to the (single-row) aliasing finding."""
+        rng = self.rng
+        n = 0
+        for row in rows if isinstance(rows, list) else []:
+            if not isinstance(row, dict):
+                continue  # sqlite Row objects are immutable
+            n += 1
+            if rng.random() < 0.8:
+                for k in [k for k in row if k != "id"][: rng.randint(1, 3)]:
+                    if not isinstance(row[k], (dict, list)):
+                        row[k] = "MUTATED-BY-CALLER-OF-LISTING"
+                row["__vf_listing__"] = 1
+                self.sh.count("listing_rows_mutated_top")
+            if rng.random() < 0.7:
+                for k, v in list(row.items()):
+                    if isinstance(v, dict):
+                        v["vf-listing-nested"] = [1]
+                        self.sh.count("listing_rows_mutated_nested")
+                    elif isinstance(v, list):
+                        v.append("vf-listing-nested")
+                        self.sh.count("listing_rows_mutated_nested")
+            if rng.random() < 0.2:
+                row.pop(next(iter(row)), None)
+        return n
+
+    async def do_list_read(self, choice=None, mutate=None):
+        """a listing read; in half of the cases the caller then edits the rows it got and reads the same ids again,
+        one by one and through the same listing"""
+        plan = self.pick_list_plan(choice)
+        if plan is None:
+            return
+        rows, table = await self.list_read(plan)
+        if rows is None:
+            return
+        if mutate is None:
+            mutate = self.rng.random() < 0.5
+        if not mutate:
+            return
+        ids = [r["id"] for r in rows if isinstance(r, dict) and isinstance(r.get("id"), int)] if table else []
+        if not self.mutate_listing_rows(rows):
+            return
+        self.op("caller_mutates_listing_rows", plan["choice"])
+        self.nontrivial = self.nontrivial or bool(ids)
+        for id_ in ids[:5]:
+            if table in self.ids and id_ in self.ids[table]:
+                self.sh.count("single_reads_after_listing_mutation")
+                await self.read_row(table, id_)
+        self.sh.count("listing_reads_after_listing_mutation")
+        await self.list_read(plan)
+        if table in ("port", "step") and ids:
+            # the other listing that returns the same rows
+            for id_ in ids[:2]:
+                if table == "port":
+                    toks = await self.unc.scalar_list("SELECT id FROM token WHERE port = ?", (id_,))
+                    if toks:
+                        await self.list_read({"choice": "port_from_token", "arg": toks[0]})
 
     # ------------------------------------------------------------------ concurrent phase
     async def conc_phase(self, table=None, nreads=None, nupd=None):
@@ -697,6 +796,13 @@ async def run_history(sh: Shard, case: dict, workdir: str):
                 await h.do_add()
             for _ in range(4):
                 await h.conc_phase(table=rng.choice([t for t in ["step", "port", "deployment", "target", "filter"] if h.ids[t]] or ["workflow"]), nreads=1, nupd=1)
+        elif mode == "listmut":
+            # dedicated class: caller edits the rows of listing reads, then reads the same ids one by one
+            for _ in range(10):
+                await h.do_add()
+            for choice in ("workflow_steps", "workflow_ports", "workflows_by_name", "port_from_token", "workflow_steps", "workflow_ports"):
+                await h.do_list_read(choice=choice, mutate=True)
+                await h.do_read()
         elif mode == "kw":
             # dedicated class: reads issued in keyword form around an update
             from streamflow.core.workflow import Port
@@ -757,7 +863,7 @@ def run_shard(sh: Shard) -> None:
     hist = {}
     n = 0
     # dedicated classes first (each shard a few), then the random mix
-    fixed = [("alias", 2), ("overlap", 3), ("kw", 1)]
+    fixed = [("alias", 2), ("overlap", 3), ("kw", 1), ("listmut", 2)]
     for mode, k in fixed:
         for j in range(k):
             case = {"mode": mode, "seed": rng.randrange(1 << 48)}
